@@ -12,7 +12,11 @@ RULE = ("M: ImagerGeometry.tla -- constructor/setters/fit arithmetic as coded (e
         "tiny-box probes just inside the four corners of pixels are recorded; TraceImager.tla checks the contract event by event. "
         "Non-trivial = a history with an operation whose request is not a whole number of pixels; distinct = (history, tick).")
 TICKS = [Emb(1, 0, True, "tick=1"), Emb(Fraction(1, 4), 0, True, "tick=1/4"), Emb(Fraction(1, 10), 0, False, "tick=0.1"),
-         Emb(Fraction(7, 10), 0, False, "tick=0.7"), Emb(Fraction(1, 3), 0, False, "tick=1/3"), Emb(Fraction(3, 100), 0, False, "tick=0.03")]
+         Emb(Fraction(7, 10), 0, False, "tick=0.7"), Emb(Fraction(1, 3), 0, False, "tick=1/3"), Emb(Fraction(3, 100), 0, False, "tick=0.03"),
+         Emb(Fraction(1, 2 ** 40), 0, True, "tick=2^-40"), Emb(Fraction(7, 10 ** 10), 0, False, "tick=7e-10"), Emb(30, 0, True, "tick=30")]
+
+
+FITDTYPES = [None, None, "uint8", "int16", "int8", "uint16", "int64"]
 
 
 def gen_history(rng, maxlen, maxe=12, maxps=4):
@@ -60,7 +64,7 @@ def to_job(ops, e):
             skew = op[2]
             # ticks are (birth, persistence); with skew=True the code expects (birth, death)
             out.append(["fit", [[[e.f(b), e.f(b + p) if skew else e.f(p)] for b, p in d] for d in op[1]], int(skew), int(op[3]), int(len(op) > 4 and op[4])])
-    return {"ops": out, "tick": float(e.s)}
+    return {"ops": out, "tick": float(e.s), "fitdtype": FITDTYPES[(len(ops) + sum(len(str(o)) for o in ops)) % len(FITDTYPES)]}
 
 
 def to_case(ops, obs, e):
